@@ -41,6 +41,8 @@ func init() {
 			parserHelperRules(c, "C11")
 			// the debug dialer sees the handshake through WrapConn: it must wrap the outermost connection
 			c20DialConn(c)
+			// both upgraders share negotiateExtensions: a refusal ends the handshake on both sides
+			negotiateExtensionsRules(c, "C11")
 		},
 	})
 }
@@ -645,6 +647,29 @@ func c11DebugDialerWrap(c *Ctx) {
 	}
 	var connObj *fold.Obj
 	userSet := false
+	gated, onReq, onRes := false, false, false
+	// which of the two callbacks is configured decides what the hook installs
+	debugDialerCfg := func(mm *fold.Machine, init fold.Val, t types.Type) fold.Val {
+		st, ok := init.(fold.Struct)
+		if !ok || types.TypeString(t, nil) != wsutil+".DebugDialer" {
+			return init
+		}
+		ds := structOf(c.P.NamedType(wsutil, "DebugDialer"))
+		iq, is := fieldIdx(ds, "OnRequest", nil), fieldIdx(ds, "OnResponse", nil)
+		if iq < 0 || is < 0 {
+			return init
+		}
+		gated = true
+		onReq, onRes = mm.Choose("on-request", 2) == 1, mm.Choose("on-response", 2) == 1
+		st.F[iq], st.F[is] = fold.Val(fold.Nil{}), fold.Val(fold.Nil{})
+		if onReq {
+			st.F[iq] = fold.Sym{Name: "OnRequest", NonNil: true}
+		}
+		if onRes {
+			st.F[is] = fold.Sym{Name: "OnResponse", NonNil: true}
+		}
+		return st
+	}
 	m.Bind = func(mm *fold.Machine) []fold.Val {
 		var out []fold.Val
 		connObj = nil
@@ -666,6 +691,13 @@ func c11DebugDialerWrap(c *Ctx) {
 					}
 				case *types.Interface:
 					init = fold.Nil{}
+				case *types.Pointer:
+					// the receiver, captured by reference
+					if ip, ok := pt.Elem().Underlying().(*types.Pointer); ok && types.TypeString(ip.Elem(), nil) == wsutil+".DebugDialer" {
+						init = fold.Ref{O: mm.NewObj("debugdialer", debugDialerCfg(mm, fold.SymOfType("d", ip.Elem()), ip.Elem()))}
+					} else {
+						init = fold.SymOfType(fv.Name(), pt.Elem())
+					}
 				default:
 					init = fold.SymOfType(fv.Name(), pt.Elem())
 				}
@@ -675,7 +707,9 @@ func c11DebugDialerWrap(c *Ctx) {
 				}
 				out = append(out, fold.Ref{O: o})
 			case isPtr:
-				out = append(out, fold.Ref{O: mm.NewObj(fv.Name(), fold.SymOfType(fv.Name(), pt.Elem()))})
+				init := fold.SymOfType(fv.Name(), pt.Elem())
+				init = debugDialerCfg(mm, init, pt.Elem())
+				out = append(out, fold.Ref{O: mm.NewObj(fv.Name(), init)})
 			default:
 				out = append(out, fold.SymOfType(fv.Name(), fv.Type()))
 			}
@@ -714,6 +748,18 @@ func c11DebugDialerWrap(c *Ctx) {
 		if st, ok := ret.(fold.Struct); ok && len(st.F) > 0 {
 			if got := nameOf(st.F[0]); got != want {
 				problems = append(problems, fmt.Sprintf("the connection the handshake is given embeds %s instead of %s", got, want))
+			}
+			// the response is sniffed exactly when OnResponse is set, the request teed exactly when
+			// OnRequest is (each callback reports its own direction; without it the handshake
+			// talks to the connection directly)
+			if gated && len(st.F) == 3 {
+				rd, wr := nameOf(st.F[1]), nameOf(st.F[2])
+				if sniffs := rd != want; sniffs != onRes {
+					problems = append(problems, fmt.Sprintf("OnResponse set=%v but the handshake reads from %s (OnRequest set=%v)", onRes, rd, onReq))
+				}
+				if tees := wr != want; tees != onReq {
+					problems = append(problems, fmt.Sprintf("OnRequest set=%v but the handshake writes to %s (OnResponse set=%v)", onReq, wr, onRes))
+				}
 			}
 		} else {
 			problems = append(problems, "undecided: the hook returns "+fold.Show(p.Ret))
